@@ -21,7 +21,8 @@ EXPLANATION = (
     " ROUND 7: R2 linkage and calling convention are tables over the sixteen flag sets, folded from the arguments of LLVMSetLinkage / LLVMSetFunctionCallConv (rules/flagfn.py), whatever the form of the code that chooses them."
     " ROUND 8: R10-LINK-RESULT-CHECKED 'default diagnostic handler' (shared with C02): while the status of LLVMLinkModules2 is discarded (known finding) the default handler, which ends the process on a link error, must stay in place."
     " ROUND 9: R11-BRANCH-TARGETS-FRESH: no LLVMBuildBr / LLVMBuildCondBr targets a block obtained from LLVMGetInsertBlock (it may be the entry block, which must not have predecessors); C01.R3-CAST-ALWAYS-CONVERTED is shared (an unconverted cast operand is a constant of the wrong type inside an aggregate, which only llvm-as notices); R2-LINKAGE-TABLE 'local functions reach the linked program': known finding (LLVMLinkModules2 drops unreferenced local symbols)."
-    " ROUND 10: R12-LINKAGE-SET-AT-CREATION: every LLVMSetLinkage / LLVMSetVisibility / LLVMSetFunctionCallConv acts on a value produced by LLVMAddFunction / LLVMAddGlobal in the same function (no pass over a finished module changes what declare decided).")
+    " ROUND 10: R12-LINKAGE-SET-AT-CREATION: every LLVMSetLinkage / LLVMSetVisibility / LLVMSetFunctionCallConv acts on a value produced by LLVMAddFunction / LLVMAddGlobal in the same function (no pass over a finished module changes what declare decided)."
+    " ROUND 12: R13-BOTH-MODULES-VERIFIED: Generator::verify applies LLVMVerifyModule with the abort action to the current module and to the combined (linked) module; modules share one context, so a later module can invalidate the linked IR while every per-module file stays valid.")
 
 GEN = "alpha::generator::Generator"
 
